@@ -79,10 +79,24 @@ class _Rec:
         self.pairs = []
 
 
+_KEEP = None        # a session that keeps its GeneData objects: {path: GeneData}, the same object handed to every load of the session
+
+
 def do_load(how, out, gpath, genome, only_chrom=None, rec=None, tamper=None):
     """-> list of DensityData (one per chromosome, or just one)"""
     from transposon.density_data import DensityData
-    from transposon.gene_data import GeneData
+    from transposon.gene_data import GeneData as _GeneData
+    class GeneData:
+        """GeneData.read through the session's store of objects, when the session keeps them (a caller that holds its GeneData)"""
+        def __new__(cls, *a, **k):
+            return _GeneData(*a, **k)
+        @staticmethod
+        def read(path):
+            if _KEEP is None:
+                return _GeneData.read(path)
+            if path not in _KEEP:
+                _KEEP[path] = _GeneData.read(path)
+            return _KEEP[path]
     cache = os.path.join(out, "filtered_input_data", "input_cache")
     tamper = tamper or {}
     if rec is not None:
@@ -302,8 +316,10 @@ def interleaved_loads(out, gpath, genome, chroms, order):
 
 
 def op_session(req):
+    global _KEEP
     d = tempfile.mkdtemp(prefix="vh_rd_")
     genome = req.get("genome", "G")
+    _KEEP = {} if req.get("keep_gene_data") else None
     try:
         gpath, out = build_outdir(req, d)
         raw = {}
@@ -368,6 +384,7 @@ def op_session(req):
     except BaseException as e:  # noqa
         return {"ok": False, "exc": type(e).__name__, "msg": str(e)[:300], "tb": traceback.format_exc()[-1500:]}
     finally:
+        _KEEP = None
         shutil.rmtree(d, ignore_errors=True)
 
 
